@@ -164,6 +164,22 @@ def other_obs(tier, rnd):
 """
             obs.append(Ob(f"options.{mt}.{lo}", build([U8(f"b{i}") for i in bs], body, setup=SETUP), f"{mt}: arbitrary bytes {bs} in the options record (including bits no option uses): fixed point after one cycle",
                           group="options", shape=f"REF-ENC synth({mt}) with a {n}-byte options record", symbolic=f"{len(bs)} record bytes over 0..255", timeout=240))
+    # common module header fields (MIDI-out bank/program, finetune, ...) of a reference-encoded module
+    for gi, grp in enumerate((["bank", "prog", "fin"], ["rel", "x", "y"], ["sc", "moc", "mii", "fl"])):
+        params = [(I32(n) if n in ("bank", "prog", "fin", "rel", "x", "y") else U32(n)) for n in grp]
+        v = lambda n, d: n if n in grp else str(d)
+        body = f"""
+    X = RF.enc_project(modules=[RF.enc_output(), RF.enc_module("Amplifier", in_project=True, flags=0x51 | {v('fl', 0)}, midi_out_bank={v('bank', -1)}, midi_out_program={v('prog', -1)},
+                       finetune={v('fin', 0)}, relative_note={v('rel', 0)}, x={v('x', 1)}, y={v('y', 2)}, scale={v('sc', 256)}, midi_out_channel={v('moc', 0)}, midi_in={v('mii', 0)})])
+    a = load_bytes(X)
+    m_ = a.modules[1]
+    if not (m_.midi_out_bank == {v('bank', -1)} and m_.midi_out_program == {v('prog', -1)} and m_.mod_finetune == {v('fin', 0)} and m_.mod_relative_note == {v('rel', 0)}
+            and m_.x == {v('x', 1)} and m_.y == {v('y', 2)} and m_.scale == {v('sc', 256)} and m_.midi_out_channel == {v('moc', 0)}):
+        return False
+    return cycle(X)
+"""
+        obs.append(Ob(f"common.{gi}", build(params, body, setup=SETUP), f"module header fields {grp} of a reference-encoded module: decoded, and a fixed point after one load/save cycle", group="common",
+                      shape="REF-ENC project Output + Amplifier", symbolic=", ".join(grp) + " at their widths", timeout=300))
     # project header
     for gname, fields in (("u", [f for f in ("flags", "initial_bpm", "initial_tpl", "time_grid", "time_grid2", "global_volume", "modules_scale", "modules_zoom", "modules_layer_mask",
                                              "modules_current_layer", "selected_module", "current_pattern", "current_track", "current_line", "sync")]),
